@@ -23,7 +23,10 @@ brace-matched function bodies, anchored regular expressions):
   blockedWriters        the functions that assign `ConnectionState::Blocked`
   passwordRuntimeWrites assignments to a `password` field outside src/config and src/main*.rs
 
-A pattern that is not found yields `extraction_failed "<what>"`, which does not elaborate.
+  deferral           how `Connection::deferred_frames` is filled and drained (absent | blocked-only | unknown:..)
+  unreadable         what could not be read.  A pattern that is not found does NOT stop the Lean build: the table gets an inert
+                     default, the reason is listed here, `tree_source_readable` (Props/C17) fails, `drv_auth` answers `unknown`
+                     for everything and the TCP run searches with the property's own oracle.
 """
 import os
 import re
@@ -134,20 +137,30 @@ def generate(src, strip_comments, fn_body, header, repo):
     failed = []
 
     def fail(decl, ty, what):
-        failed.append(what)
-        L.append('def %s : %s := extraction_failed %s' % (decl, ty, lean_str(what)))
+        """A shape this extraction cannot read does NOT stop the Lean build (the driver must still run so that the TCP
+        search can go on with the property's own oracle): the table gets an inert default, the reason goes into
+        `Gen.unreadable`, the table theorem `tree_source_readable` fails, and the driver predicts nothing (`unknown`)."""
+        failed.append("%s: %s" % (decl, what))
+        default = {"Bool": "false"}.get(ty, "[]")
+        L.append("/-- UNREADABLE (%s): inert default, see `unreadable` -/" % what.replace("-/", "- /"))
+        L.append("def %s : %s := %s" % (decl, ty, default))
 
     # ---------------------------------------------------------------- (a) the connection loop before process_frame
     pc = fn_body(text, "process_connection")
     loop_names = []
     section = None
     if pc is not None:
-        a = re.search(r"for\s+frame\s+in\s+frames_to_process\s*\{", pc)
+        # the loop over the parsed frames that contains the call of process_frame: `for frame in <expr> {` or
+        # `while let Some(frame) = <expr> {` (the innermost such header before the call)
         b = pc.find("self.process_frame(")
-        if a and b > a.end():
-            section = pc[a.end():b]
+        heads = [m for m in re.finditer(r"(?:for\s+frame\s+in\s+[^{};]+|while\s+let\s+Some\(\s*frame\s*\)\s*=\s*[^{};]+)\{", pc) if m.end() < b]
+        if b > 0 and heads:
+            a = heads[-1]
+            end = match_brace(pc, a.end() - 1)
+            if end is not None and end > b:          # the call is inside this loop
+                section = pc[a.end():b]
     if section is None:
-        fail("preGate", "List String", "frame loop of process_connection (for frame in frames_to_process .. self.process_frame() not found")
+        fail("preGate", "List String", "frame loop of process_connection (`for frame in ..` / `while let Some(frame) = ..` around self.process_frame() not found")
         fail("preGateGuarded", "List String", "frame loop of process_connection not found")
         fail("preGateUnknownGuard", "List (String × String)", "frame loop of process_connection not found")
     else:
@@ -300,5 +313,49 @@ def generate(src, strip_comments, fn_body, header, repo):
     L.append("def blockedWriters : List String := %s" % lean_list(sorted(set(blocked_w))))
     L.append("/-- assignments to a `password` field outside src/config, src/main*.rs, src/bin (the password is fixed at start-up) -/")
     L.append("def passwordRuntimeWrites : List String := %s" % lean_list(sorted(set(pw_w))))
+    # ---------------------------------------------------------------- (e) frames kept back for later execution
+    # `Connection::deferred_frames`: the rest of a batch behind a blocking command that blocked.  The facts the model rests on:
+    # the list is per connection, it is filled only in process_connection and only when `is_connection_blocked(id)`, and it is
+    # drained only into the frames of the SAME connection's next process_connection (where every frame meets the gate again).
+    fills, drains = [], []
+    for root, _, files in os.walk(os.path.join(repo, "src")):
+        for f in sorted(files):
+            if not f.endswith(".rs"):
+                continue
+            rel = os.path.relpath(os.path.join(root, f), os.path.join(repo, "src"))
+            t = strip_comments(src(rel))
+            for m in re.finditer(r"\bdeferred_frames\b", t):
+                ctx = re.sub(r"\s+", " ", t[max(0, m.start() - 60):m.end() + 40])
+                who = "%s::%s" % (rel, enclosing_fn(t, m.start()))
+                if re.match(r"\s*=[^=]", t[m.end():m.end() + 4]):
+                    fills.append((who, m.start(), rel))
+                elif re.search(r"append\(&mut conn\.deferred_frames\)", ctx):
+                    drains.append(who)
+                elif re.search(r"deferred_frames: Vec<RespFrame>|deferred_frames: Vec::new\(\)", ctx):
+                    pass                                   # declaration / initialisation
+                else:
+                    fills.append((who + " (unrecognised use: %s)" % ctx.strip()[:60], -1, rel))
+    if not fills and not drains:
+        deferral = "absent"
+    else:
+        okf = True
+        for who, pos, rel in fills:
+            if pos < 0 or who != "network/server.rs::process_connection":
+                okf = False
+                continue
+            before = re.sub(r"\s+", " ", text[max(0, pos - 400):pos]) if rel == "network/server.rs" else ""
+            # `if self.is_connection_blocked(id) { let rest .. = frames.by_ref().collect(); if !rest.is_empty() { self.connections.with_connection(id, |conn| { conn.`
+            if not re.search(r"if self\.is_connection_blocked\(id\) \{ let rest: Vec<RespFrame> = \w+\.by_ref\(\)\.collect\(\); if !rest\.is_empty\(\) \{ "
+                             r"self\.connections\.with_connection\(id, \|conn\| \{ conn\.$", before):
+                okf = False
+        okd = all(d == "network/server.rs::process_connection" for d in drains) and len(drains) == 1
+        deferral = "blocked-only" if okf and okd and fills else "unknown:fills=%s drains=%s" % ([w for w, _, _ in fills], drains)
+    L.append("/-- frames kept back for later execution (`Connection::deferred_frames`): \"absent\"; \"blocked-only\" = filled only in")
+    L.append("    process_connection under `if self.is_connection_blocked(id)` with the rest of the same batch and drained only into the")
+    L.append("    same connection's next process_connection (each frame then meets the gate); anything else is \"unknown:..\" -/")
+    L.append("def deferral : String := %s" % lean_str(deferral))
+    L.append("/-- what this extraction could not read in the current source (each entry: table, reason); the tables concerned hold")
+    L.append("    inert defaults and the driver predicts nothing while this list is non-empty -/")
+    L.append("def unreadable : List String := %s" % lean_list(failed))
     L += ["", "end Ferrous.Gen", ""]
     return "\n".join(L)
